@@ -258,6 +258,46 @@ func run9(t *testing.T, c Case9) (v *verdict, nontrivial bool, labels []string) 
 				}
 			}
 		}
+		// ---- clause: a failed actor is suspended until its supervisor has decided: between the delivery whose
+		// handler raised the failure and the consultation about it, the actor handles no user message
+		prevConsult := map[string]int{}
+		for _, cs := range w.ConsultsCopy() {
+			if c.Racing {
+				break // directives of an earlier decision may still be in flight when the next failure happens: not judged
+			}
+			// the failure this consultation is about lies after the previous consultation about the same actor
+			// (a consultation without such a failure is an escalated one: the actor did not fail itself)
+			from := prevConsult[cs.Child]
+			prevConsult[cs.Child] = cs.TraceIdx
+			f := -1
+			for i := cs.TraceIdx - 1; i >= from && i >= 0 && i < len(tr); i-- {
+				if tr[i].Actor == cs.Child && tr[i].Fails {
+					f = i
+					break
+				}
+			}
+			if f < 0 {
+				continue
+			}
+			// another decision in between (a sibling's failure under one-for-all, an ancestor's restart) may
+			// legitimately have resumed or drained this actor: not judged
+			other := false
+			for _, o := range w.ConsultsCopy() {
+				if o.TraceIdx > f && o.TraceIdx <= cs.TraceIdx && !(o.Child == cs.Child && o.TraceIdx == cs.TraceIdx) {
+					other = true
+				}
+			}
+			if other {
+				continue
+			}
+			for i := f + 1; i < cs.TraceIdx && i < len(tr); i++ {
+				if tr[i].Actor == cs.Child && tr[i].Kind == "msg" && tr[i].Inst == tr[f].Inst {
+					v = &verdict{"C09/runs-while-failed", fmt.Sprintf("%s failed (%s) and, before its supervisor %s was consulted about that failure, handled %s: a failed actor is suspended until the decision; its trace: %s", cs.Child, tr[f].String(), cs.Supervisor, tr[i].String(), world.Fmt(tailN(per[cs.Child], 16)))}
+					return
+				}
+			}
+			lab["suspended-until-decision-checked"] = true
+		}
 		// ---- clause: nobody stays paused / half-stopped (white box)
 		states := actorStates(w)
 		for _, st := range states {
